@@ -92,7 +92,7 @@ ASSUMPTIONS = [
     "`names` and `pipelines` have no single-value form (class docstrings and the repository's own tests require "
     "TypeError / per-observer lists); BolometerCamera documents list-only foil_detectors assignment",
 ]
-QUICK = dict(cases=2400, workers=2, timecap=25)
+QUICK = dict(cases=2000, workers=2, timecap=25)
 THOROUGH = dict(cases=300000, workers=16, timecap=300)
 REQUIRED = {"registry": 2, "assign_scalar": 300, "assign_seq": 1200, "wronglen": 2500, "getter": 10000,
             "snapshot_members": 20000, "lookup_index": 500, "lookup_slice": 800, "lookup_name": 300, "invariant": 5000,
@@ -102,7 +102,8 @@ REQUIRED = {"registry": 2, "assign_scalar": 300, "assign_seq": 1200, "wronglen":
             "entry:member-of-another-group": 50, "entry:parented-to-another-group": 50, "entry:parented-to-world": 50,
             "entry:parented-to-a-node": 50, "entry:no-parent": 300, "dup_assign": 100,
             "rejected_ops": 500, "rejected_other_groups": 200,
-            "assign_current_values": 1500, "observe_nonmembers": 300, "observe_diverged": 60}
+            "assign_current_values": 1500, "observe_nonmembers": 300, "observe_diverged": 60,
+            "roundtrip": 1500, "placed_nontrivially": 500}
 
 CLASSES = ["SightLineGroup", "FibreOpticGroup", "PixelGroup", "TargettedPixelGroup",
            "SpectroscopicSightLineGroup", "SpectroscopicFibreOpticGroup", "BolometerCamera"]
@@ -518,7 +519,28 @@ def _gen_history(rng, cname, tier):
         vias = paths["set"] + ([] if cname == CAMERA else ["ctor"])
         ops.append({"op": "two_groups", "via": vias[int(rng.integers(len(vias)))], "k": int(rng.integers(0, 4))})
     ops.append({"op": "read_all"})
-    return {"kind": "history", "cls": cname, "in_world": in_world, "pool": pool, "init": _gen_init(rng, cname, n0), "ops": ops}
+    if rng.random() < 0.4:
+        ops.insert(len(ops) - 1, {"op": "roundtrip"})
+    return {"kind": "history", "cls": cname, "in_world": in_world, "placement": _gen_placement(rng), "pool": pool,
+            "init": _gen_init(rng, cname, n0), "ops": ops}
+
+
+def _gen_affine(rng, kind):
+    t = [float(x) for x in rng.uniform(-3, 3, size=3)] if kind in ("translation", "both") else [0.0, 0.0, 0.0]
+    r = [float(x) for x in rng.uniform(-170, 170, size=3)] if kind in ("rotation", "both") else [0.0, 0.0, 0.0]
+    return {"t": t, "r": r}
+
+
+GT_KINDS = ["identity", "translation", "rotation", "both"]
+
+
+def _gen_placement(rng, depth=None, gt=None):
+    """Scene placement of the group: 0 / 1 / 2 transformed nodes between the root and the group (root = the World when
+    the case is in a world, else the top node / the group itself) and the group's own transform."""
+    depth = int(rng.integers(0, 3)) if depth is None else depth
+    gt = GT_KINDS[int(rng.integers(4))] if gt is None else gt
+    chain = [_gen_affine(rng, GT_KINDS[int(rng.integers(1, 4))]) for _ in range(depth)]
+    return {"chain": chain, "gt": None if gt == "identity" else _gen_affine(rng, gt), "gt_kind": gt, "depth": depth}
 
 
 def _gen_observe_op(rng):
@@ -543,7 +565,8 @@ def _gen_observe(rng, cname):
                     "via": paths["set"][int(rng.integers(len(paths["set"])))], "kind": "list"})
     ops.append(_gen_observe_op(rng))
     ops.append({"op": "lookup", "slices": []})
-    return {"kind": "observe", "cls": cname, "in_world": True, "pool": pool, "init": _gen_init(rng, cname, n), "ops": ops}
+    return {"kind": "observe", "cls": cname, "in_world": True, "placement": _gen_placement(rng), "pool": pool,
+            "init": _gen_init(rng, cname, n), "ops": ops}
 
 
 def _gen_foreign(rng, cname):
@@ -558,7 +581,7 @@ def _gen_foreign(rng, cname):
                     "via": vias[int(rng.integers(len(vias)))], "pos": int(rng.integers(0, n + len(extras) + 1)),
                     "extras": extras, "bare": bool(rng.random() < 0.1)})
     ops.append({"op": "lookup", "slices": []})
-    return {"kind": "foreign", "cls": cname, "in_world": bool(rng.random() < 0.5), "pool": pool,
+    return {"kind": "foreign", "cls": cname, "in_world": bool(rng.random() < 0.5), "placement": _gen_placement(rng), "pool": pool,
             "init": _gen_init(rng, cname, n), "ops": ops}
 
 
@@ -613,9 +636,35 @@ def fixed_cases(tier):
                                     ops.append(_gen_assign_cur(rng, cname, attr, n, kind, src, mode))
                 else:
                     ops.append({"op": "generic", "attr": attr})
+                ops.append({"op": "roundtrip", "attrs": [attr]})
                 ops.append({"op": "read_all"})
-                cases.append({"kind": "sweep", "cls": cname, "attr": attr, "in_world": n == 3, "pool": pool,
+                cases.append({"kind": "sweep", "cls": cname, "attr": attr, "in_world": n == 3,
+                              "placement": _gen_placement(rng, depth=(0, 1, 2, 1)[(n + len(attr)) % 4], gt=GT_KINDS[(n + len(attr) // 2) % 4]),
+                              "pool": pool,
                               "init": {"via": ["ctor_list", "add", "set_tuple", "ctor_tuple"][n % 4], "n0": n}, "ops": ops})
+    # scene placement classes: parent None / world / transformed node / nested nodes  x  group transform identity /
+    # translation / rotation / both; the assign / read-back / round-trip machinery for every attribute under each
+    for cname in CLASSES:
+        attrs = [a for a in _broadcast_attrs(cname) if a in ATTRS]
+        for pi, (in_world, depth) in enumerate(((False, 0), (True, 0), (True, 1), (True, 2), (False, 2))):
+            for gi, gt in enumerate(GT_KINDS):
+                rng = np.random.default_rng([15, 66, zlib.crc32(cname.encode()), pi, gi])
+                pool = [_gen_member(rng, cname, i) for i in range(3)]
+                for p_ in pool:
+                    if p_.get("mtype") == "BolometerIRVB":
+                        p_["mtype"] = "BolometerFoil"
+                ops = []
+                for attr in attrs:
+                    geo = ATTRS[attr]["type"] in ("point", "vector", "prims")
+                    for kind in (_kinds(attr) if geo else ["list"]):
+                        ops.append(_gen_assign(rng, attr, 3, kind))
+                    ops.append({"op": "roundtrip", "attrs": [attr]})
+                ops += [{"op": "lookup", "slices": [[None, None, None]]}, {"op": "roundtrip"}, {"op": "read_all"}]
+                if in_world:
+                    ops.append({"op": "observe", "reps": 1, "ps": 2, "spt": 2, "bins": 1})
+                cases.append({"kind": "placement", "cls": cname, "in_world": in_world, "placement": _gen_placement(rng, depth, gt),
+                              "pool": pool, "init": {"via": ["add", "set_list"][gi % 2] if cname == CAMERA else ["ctor_list", "add", "set_list", "ctor_tuple"][gi],
+                                                     "n0": 3}, "ops": ops})
     # lookups and membership paths
     for cname in CLASSES:
         for n in (0, 1, 2, 4, 6):
@@ -762,6 +811,22 @@ class Env:
         self.cname = case["cls"]
         self.G = S["classes"][self.cname]
         self.world = S["World"]() if case.get("in_world") else None
+        # target primitives live in their own frame; observe() moves that frame onto the group so that the targets stay in
+        # front of the (untransformed) pixels wherever the group is placed
+        self.prim_frame = S["Node"](parent=self.world)
+        # scene placement of the group: chain of (transformed) nodes between the root and the group + group transform
+        self.group_parent = self.world
+        self.group_transform = None
+        pl = case.get("placement")
+        if pl:
+            top = self.world
+            self.chain = []
+            for spec in pl.get("chain", []):
+                top = S["Node"](parent=top, transform=self.affine(spec))
+                self.chain.append(top)
+            self.group_parent = top
+            if pl.get("gt"):
+                self.group_transform = self.affine(pl["gt"])
         self.keep = []                         # pins objects referenced by id() in snapshots
         self.engines = {}
         self.prims = {}
@@ -775,6 +840,11 @@ class Env:
         self.all_observers = []            # every valid observer this case created (members or not)
         self.caller_lists = []             # (entry, list object) recently handed to container entry points
 
+    def affine(self, spec):
+        from raysect.core import translate, rotate
+        t, r = spec.get("t", [0, 0, 0]), spec.get("r", [0, 0, 0])
+        return translate(*t) * rotate(*r)
+
     # -- object pools -------------------------------------------------------------------------
     def engine(self, i):
         if i not in self.engines:
@@ -783,7 +853,7 @@ class Env:
 
     def prim(self, i):
         if i not in self.prims:
-            self.prims[i] = self.S["Sphere"](0.01, parent=self.world, transform=self.S["translate"](0.1 * i, 0.3, 1.0),
+            self.prims[i] = self.S["Sphere"](0.01, parent=self.prim_frame, transform=self.S["translate"](0.1 * i, 0.3, 1.0),
                                              material=self.S["AbsorbingSurface"]())
         return self.prims[i]
 
@@ -1245,6 +1315,57 @@ def op_generic(env, ctx, op):
     check_invariant(env, ctx, attr + "=")
 
 
+NO_ROUNDTRIP = {"display_progress", "accumulate"}      # their getters return per-pipeline lists, not assignable values
+
+
+def _canon_close(a, b, tol):
+    if isinstance(a, tuple) and isinstance(b, tuple):
+        return len(a) == len(b) and all(_canon_close(x, y, tol) for x, y in zip(a, b))
+    if isinstance(a, float) and isinstance(b, float):
+        return abs(a - b) <= tol * (1.0 + abs(a))
+    return a == b
+
+
+def op_roundtrip(env, ctx, op):
+    """group.attr = group.attr must change nothing (what is read is what the members hold; assigning it element-wise
+    gives every member the value it already has) - in whatever frame the group sits in the scene."""
+    cn = env.cname
+    g = env.group
+    props = _props(cn)
+    attrs = op.get("attrs") or [a for a in sorted(props) if a not in STRUCTURAL]
+    for a in attrs:
+        pr = props.get(a)
+        if pr is None or pr.fget is None or pr.fset is None or a in NO_ROUNDTRIP:
+            continue
+        if a == "names" and any(not isinstance(m.name, str) for m in env.members):
+            ctx.skip("names round trip with an unnamed member: Raysect's own name setter rejects None")
+            continue
+        before = snap_all(env, ctx)
+        ctx.mon("roundtrip")
+        try:
+            v = getattr(g, a)
+            setattr(g, a, v)
+        except Exception as e:  # noqa
+            ctx.viol("roundtrip:%s.%s:raises-%s" % (cn, a, type(e).__name__),
+                     "group.%s = group.%s raised %s: %s" % (a, a, type(e).__name__, str(e)[:200]))
+            continue
+        after = snap_all(env, ctx)
+        geo = a in ATTRS and ATTRS[a]["type"] in ("point", "vector")
+        for j, (b, c) in enumerate(zip(before, after)):
+            d = _diff(b, c)
+            if geo:       # the member-level setters rebuild the transform from (origin, direction): the roll about the
+                # sight line is theirs to choose; the VALUES (origin, direction) must survive within rounding
+                d = [k for k in d if k != "transform" and not (k in ("origin", "direction") and _canon_close(b[k], c[k], 1e-12))]
+            if d:
+                ctx.viol("roundtrip:%s.%s:changed-members" % (cn, a),
+                         "group.%s = group.%s changed attributes %s of member %d" % (a, a, d, j),
+                         before={k: b.get(k) for k in d}, after={k: c.get(k) for k in d})
+                break
+    if env.members:
+        ctx.nontrivial()
+    check_invariant(env, ctx, "roundtrip")
+
+
 def op_lookup(env, ctx, op):
     cn = env.cname
     g = env.group
@@ -1452,6 +1573,7 @@ def op_observe(env, ctx, op):
     S = env.S
     cn = env.cname
     g = env.group
+    env.prim_frame.transform = g.to_root()
     for _ in range(op.get("strays", 0)):            # children of the group that were never added
         fresh_member(env).parent = g
     uniq = []
@@ -1484,7 +1606,8 @@ def op_observe(env, ctx, op):
             m = uniq[i % len(uniq)]
             if not any(m is x for x, _ in moved):
                 moved.append((m, m.parent))
-                m.parent = env.world
+                # a plain node that sits where the group sits, so the scene geometry (targets, slits) is unchanged
+                m.parent = S["Node"](parent=env.world, transform=g.to_root())
     reps = op["reps"]
     tag = "observe:%s%s" % (cn, ":irvb-member" if has_irvb else "")
     try:
@@ -1966,12 +2089,12 @@ def do_set(env, ctx, entry, ms, kind, where):
         ctx.mon("entry:" + lab)
     try:
         if entry == "ctor":
-            env.group = env.G(parent=env.world, name="grp", observers=val)
+            env.group = env.G(parent=env.group_parent, transform=env.group_transform, name="grp", observers=val)
         else:
             setattr(env.group, entry, val)
     except Exception as e:  # noqa
         if entry == "ctor":
-            env.group = env.G(parent=env.world, name="grp")
+            env.group = env.G(parent=env.group_parent, transform=env.group_transform, name="grp")
         now = group_members(env)
         if dup:
             ctx.skip("a member list naming the same observer twice was rejected: property silent")
@@ -2023,7 +2146,7 @@ def build_group(env, ctx):
             prep_parent(env, i)
         do_set(env, ctx, "ctor", [env.member(i) for i in idxs], "list" if via == "ctor_list" else "tuple", "init-" + via)
         return
-    env.group = env.G(parent=env.world, name="cam" if cn == CAMERA else "grp")
+    env.group = env.G(parent=env.group_parent, transform=env.group_transform, name="cam" if cn == CAMERA else "grp")
     for i in idxs:
         prep_parent(env, i)
     first = [env.member(i) for i in idxs]
@@ -2064,6 +2187,11 @@ def run_case(case, ctx):
     kind = case["kind"]
     cn = case["cls"]
     ctx.cls("%s:%s" % (kind, cn))
+    pl = case.get("placement")
+    if pl:
+        ctx.mon("placement:depth%d:%s%s" % (pl["depth"], pl["gt_kind"], "" if case.get("in_world") else ":no-world"))
+        if pl["depth"] or pl["gt_kind"] != "identity":
+            ctx.mon("placed_nontrivially")
     env = Env(case)
     if kind == "registry":
         return op_registry(env, ctx)
@@ -2102,6 +2230,8 @@ def run_case(case, ctx):
             op_connect(env, ctx, op)
         elif o == "foreign":
             op_foreign(env, ctx, op)
+        elif o == "roundtrip":
+            op_roundtrip(env, ctx, op)
         elif o == "getter_alias":
             op_getter_alias(env, ctx, op)
         elif o == "two_groups":
